@@ -1,4 +1,4 @@
-\* C04 (thorough tier): every call history of depth 4 over the reduced menu (16 operations); properties checked at every reachable state
+\* C04 (thorough tier): every call history of depth 4 over the reduced menu (17 operations); properties checked at every reachable state
 CONSTANTS
     Depth = 4
     EmitOn = TRUE
@@ -13,5 +13,6 @@ INVARIANT SegChain
 INVARIANT NowIsLast
 INVARIANT StepIntervals
 INVARIANT ProtocolIsComposition
+INVARIANT FailedFrozen
 INVARIANT Emit
 CHECK_DEADLOCK FALSE
